@@ -5,8 +5,8 @@ from .common import Laws, run_subprocess, main_entry
 from .. import inputs
 
 SPEC = dict(
-    lean_modules=['SmVerif.Props.C12'],
-    groups=['Quaternions'],
+    lean_modules=['SmVerif.Props.C12', 'SmVerif.Props.Delegation', 'SmVerif.Props.DualQuat'],
+    groups=['Quaternions', 'Quats', 'DualQuat'],
     partial=['exp/log of Quaternion and the dual-quaternion laws are class-level: checked by the float '
              'monitor against the Lean-stated laws (Spec.Quat), not yet by traced theorems'],
     assumptions=['float results are compared at 1e-9 relative (1e-6 for exp/log) on generated inputs only'],
